@@ -81,4 +81,20 @@ PROPS = {
         "assumptions": ["for records with different owners the canonical record order must follow the canonical name order (RFC 4034 6.3 only orders RRs inside an RRset)",
                         "equality of record data is only required to be coherent and insensitive to the ASCII case of embedded names; it need not coincide with canonical-form equality (NSEC next name)"],
     },
+    "C02": {
+        "level": "exploration",
+        "features": ["hooks"],
+        "stages": [
+            {"mode": "native"},
+            {"mode": "asan", "scale": 0.1},
+        ],
+        "rule": "an evaluation is one random builder op sequence (pushes of questions/records of every type/OPT via the opt builder, forward and backward "
+                "section changes, rewind, builder(), push limits, pushes that fail) on one of 15 target x compressor combinations (Vec, BytesMut, Array<512>, "
+                "Array<2048>, StreamTarget, Static/Tree/Hash compressor over Vec, StreamTarget and Array), in size classes tiny / medium / around 0x3FFF / around "
+                "0xFFFF; after every op counts = model and failed-push-is-identity; at checkpoints and at the end the octets are read by the independent "
+                "walker and by the library and compared item by item with the model, all compression pointers must point backwards to a label start of an "
+                "earlier name, and the stream prefix must equal the length; distinct = (target, size class, #items, #failed pushes, section counts, size bucket)",
+        "assumptions": ["names are compared case-insensitively after a round trip (compressors may point at an earlier occurrence spelled in another case; RFC 1035 4.1.4 does not forbid it)",
+                        "which pushes fail is observed, not predicted; messages beyond 65535 octets on unlimited Vec targets are outside the property and skipped"],
+    },
 }
